@@ -481,6 +481,341 @@ fn run_history(bytes: &[u8], ops: &[&str], initial_markers: Vec<RecordMarker>, t
 }
 
 // ---------------------------------------------------------------------------------------------
+// the allocation-free API under a counting allocator (C20)
+// ---------------------------------------------------------------------------------------------
+
+fn status<T>(r: &rsdns::Result<T>) -> String {
+    match r {
+        Ok(_) => "ok".into(),
+        Err(e) => format!("E:{}", show_err(e)),
+    }
+}
+
+/// `noalloc <hex> <op>…`: every call is made with the allocation counter armed; a call that touched
+/// the allocator is reported as `<status>!A<n>`.
+pub fn eval_noalloc(toks: &[&str]) -> String {
+    use crate::alloc::measure;
+    if toks.len() < 2 {
+        return "bad-request".into();
+    }
+    let bytes = match from_hex(toks[1]) {
+        Some(b) => b,
+        None => return "bad-request".into(),
+    };
+    let g = Guarded::new(&bytes, true);
+    let buf = g.as_slice();
+    let (mr, n0) = measure(|| MessageReader::new(buf));
+    let mut mr = match mr {
+        Ok(m) => m,
+        Err(e) => return format!("err {}{}", show_err(&e), if n0 > 0 { format!("!A{}", n0) } else { String::new() }),
+    };
+    let mut markers: Vec<RecordMarker> = Vec::with_capacity(256);
+    let mut refs: Vec<NameRef> = Vec::with_capacity(256);
+    let mut pending: Option<RecordMarker> = None;
+    let mut outs: Vec<String> = Vec::new();
+    if n0 > 0 {
+        outs.push(format!("new!A{}", n0));
+    }
+    for op in &toks[2..] {
+        let parts: Vec<&str> = op.split(':').collect();
+        let is_g2 = matches!(parts[0], "sk" | "db" | "dt" | "op");
+        let last = if is_g2 { pending.take() } else { None };
+        if matches!(parts[0], "mk" | "hr" | "hi" | "hh" | "seek" | "hd" | "q" | "qr" | "sq") {
+            pending = None;
+        }
+        let full = markers.len() >= 250 || refs.len() >= 250;
+        let (st, n): (String, u64) = match parts.as_slice() {
+            ["hd"] => {
+                let (r, n) = measure(|| mr.header());
+                (status(&r), n)
+            }
+            ["q"] => {
+                let (r, n) = measure(|| mr.question());
+                (status(&r), n)
+            }
+            ["qr"] => {
+                let (r, n) = measure(|| mr.question_ref());
+                (status(&r), n)
+            }
+            ["sq"] => {
+                let (r, n) = measure(|| mr.skip_questions());
+                (status(&r), n)
+            }
+            ["mk"] if !full => {
+                let (r, n) = measure(|| mr.record_marker());
+                if let Ok(m) = &r {
+                    markers.push(m.clone());
+                    pending = Some(m.clone());
+                }
+                (status(&r), n)
+            }
+            ["hr"] if !full => {
+                let (r, n) = measure(|| mr.record_header_ref());
+                if let Ok(h) = &r {
+                    markers.push(h.marker().clone());
+                    pending = Some(h.marker().clone());
+                    refs.push(h.name().clone());
+                }
+                (status(&r), n)
+            }
+            ["hi"] if !full => {
+                let (r, n) = measure(|| mr.record_header::<InlineName>());
+                if let Ok(h) = &r {
+                    markers.push(h.marker().clone());
+                    pending = Some(h.marker().clone());
+                }
+                (status(&r), n)
+            }
+            // positive control of the meter: a heap `Name` must allocate (reported as `ctl:<0|1>`)
+            ["hh"] if !full => {
+                let (r, n) = measure(|| mr.record_header::<Name>());
+                if let Ok(h) = &r {
+                    markers.push(h.marker().clone());
+                    pending = Some(h.marker().clone());
+                }
+                outs.push(format!("{}:ctl:{}", status(&r), (n > 0) as u8));
+                continue;
+            }
+            ["sk"] => match &last {
+                Some(m) => {
+                    let (r, n) = measure(|| mr.skip_record_data(m));
+                    (status(&r), n)
+                }
+                None => ("nomarker".into(), 0),
+            },
+            ["db"] => match &last {
+                Some(m) => {
+                    let (r, n) = measure(|| mr.record_data_bytes(m));
+                    (status(&r), n)
+                }
+                None => ("nomarker".into(), 0),
+            },
+            ["dt", "A"] => match &last {
+                Some(m) => {
+                    let (r, n) = measure(|| mr.record_data::<A>(m));
+                    (status(&r), n)
+                }
+                None => ("nomarker".into(), 0),
+            },
+            ["dt", "AAAA"] => match &last {
+                Some(m) => {
+                    let (r, n) = measure(|| mr.record_data::<Aaaa>(m));
+                    (status(&r), n)
+                }
+                None => ("nomarker".into(), 0),
+            },
+            ["op"] => match &last {
+                Some(m) if m.rtype().value() != 41 => ("notopt".into(), 0),
+                Some(m) => {
+                    let (r, n) = measure(|| mr.opt_record(m));
+                    (status(&r), n)
+                }
+                None => ("nomarker".into(), 0),
+            },
+            ["seek", s] => match section_of(s) {
+                Some(sec) => {
+                    let (r, n) = measure(|| mr.seek(sec));
+                    (status(&r), n)
+                }
+                None => ("badop".into(), 0),
+            },
+            ["cq"] => {
+                let (_, n) = measure(|| mr.questions_count() + mr.records_count());
+                ("ok".into(), n)
+            }
+            ["cs", s] => match section_of(s) {
+                Some(sec) => {
+                    let (_, n) = measure(|| mr.records_count_in(sec));
+                    ("ok".into(), n)
+                }
+                None => ("badop".into(), 0),
+            },
+            ["dba", i] => match i.parse::<usize>().ok().and_then(|i| markers.get(i)) {
+                Some(m) => {
+                    let (r, n) = measure(|| mr.record_data_bytes_at(m));
+                    (status(&r), n)
+                }
+                None => ("nomarker".into(), 0),
+            },
+            ["dta", i, "A"] => match i.parse::<usize>().ok().and_then(|i| markers.get(i)) {
+                Some(m) => {
+                    let (r, n) = measure(|| mr.record_data_at::<A>(m));
+                    (status(&r), n)
+                }
+                None => ("nomarker".into(), 0),
+            },
+            ["dta", i, "AAAA"] => match i.parse::<usize>().ok().and_then(|i| markers.get(i)) {
+                Some(m) => {
+                    let (r, n) = measure(|| mr.record_data_at::<Aaaa>(m));
+                    (status(&r), n)
+                }
+                None => ("nomarker".into(), 0),
+            },
+            // name_ref_at + iterating its labels (borrowed view of an RDATA name)
+            ["nra", i] => match i.parse::<usize>().ok().and_then(|i| markers.get(i)) {
+                Some(m) => {
+                    let (r, n) = measure(|| {
+                        let nr = mr.name_ref_at(m);
+                        let mut res: rsdns::Result<()> = Ok(());
+                        for l in nr.labels() {
+                            if let Err(e) = l {
+                                res = Err(e);
+                                break;
+                            }
+                        }
+                        res
+                    });
+                    (status(&r), n)
+                }
+                None => ("nomarker".into(), 0),
+            },
+            // NameRef::eq / ne between two owner names seen so far
+            ["neq", i, j] => {
+                match (
+                    i.parse::<usize>().ok().and_then(|i| refs.get(i)),
+                    j.parse::<usize>().ok().and_then(|j| refs.get(j)),
+                ) {
+                    (Some(a), Some(b)) => {
+                        let (r, n) = measure(|| a.eq(b).and_then(|x| b.ne(a).map(|y| (x, y))));
+                        (
+                            match &r {
+                                Ok((x, _)) => format!("ok:{}", x),
+                                Err(e) => format!("E:{}", show_err(e)),
+                            },
+                            n,
+                        )
+                    }
+                    _ => ("nomarker".into(), 0),
+                }
+            }
+            _ => ("badop".into(), 0),
+        };
+        outs.push(if n > 0 { format!("{}!A{}", st, n) } else { st });
+    }
+    outs.join(" ")
+}
+
+/// `noalloci <hex>`: the iterator API restricted to what is advertised as allocation-free:
+/// `MessageIterator::new`, `question()`, `questions()`, and `records()` as long as the records are A / AAAA
+pub fn eval_noalloc_iter(toks: &[&str]) -> String {
+    use crate::alloc::measure;
+    if toks.len() != 2 {
+        return "bad-request".into();
+    }
+    let bytes = match from_hex(toks[1]) {
+        Some(b) => b,
+        None => return "bad-request".into(),
+    };
+    let g = Guarded::new(&bytes, false);
+    let buf = g.as_slice();
+    let (mi, n0) = measure(|| MessageIterator::new(buf));
+    let mi = match mi {
+        Ok(m) => m,
+        Err(e) => return format!("err {}{}", show_err(&e), if n0 > 0 { format!("!A{}", n0) } else { String::new() }),
+    };
+    let mut outs: Vec<String> = Vec::new();
+    outs.push(if n0 > 0 { format!("new!A{}", n0) } else { "new".into() });
+    let (r, n) = measure(|| mi.question());
+    outs.push(format!("{}{}", status(&r), if n > 0 { format!("!A{}", n) } else { String::new() }));
+    let (cnt, n) = measure(|| {
+        let mut ok = 0usize;
+        let mut err = 0usize;
+        for q in mi.questions() {
+            if q.is_ok() {
+                ok += 1
+            } else {
+                err += 1
+            }
+        }
+        (ok, err)
+    });
+    outs.push(format!("qs:{}:{}{}", cnt.0, cnt.1, if n > 0 { format!("!A{}", n) } else { String::new() }));
+    // records: stop measuring at the first record that is not A / AAAA (those may allocate by design)
+    let mut it = mi.records();
+    let mut seen = 0usize;
+    loop {
+        let (item, n) = measure(|| it.next());
+        match item {
+            None => break,
+            Some(Ok((_, rec))) => {
+                let t = rec.rtype.value();
+                if t != 1 && t != 28 {
+                    outs.push(format!("stop:{}", t));
+                    break;
+                }
+                seen += 1;
+                if n > 0 {
+                    outs.push(format!("rec{}!A{}", seen, n));
+                }
+            }
+            Some(Err(e)) => {
+                // an error item: allowed to be anything, but must not have allocated unless a
+                // non-A/AAAA record was being decoded — the model tells which; report the count
+                outs.push(format!("E:{}{}", show_err(&e), if n > 0 { format!("?A{}", n) } else { String::new() }));
+                break;
+            }
+        }
+    }
+    outs.push(format!("recs:{}", seen));
+    outs.join(" ")
+}
+
+/// stream `noalloc`: conforming histories restricted to the allocation-free API
+pub fn gen_noalloc(r: &mut Rng, _i: u64) -> String {
+    if r.chance(1, 5) {
+        // iterator variant: messages with only A / AAAA records (and the usual mutations)
+        let mut m = gen_msg(r, true);
+        for s in 0..3 {
+            for rec in m.sections[s].iter_mut() {
+                if r.chance(9, 10) {
+                    rec.rtype = if r.chance(1, 2) { T_A } else { T_AAAA };
+                    rec.rclass = 1;
+                    rec.data = gen_data(r, rec.rtype, true);
+                }
+            }
+        }
+        let mode = pick_mode(r);
+        let (mut buf, _) = encode(&m, mode, r);
+        if r.chance(1, 6) {
+            mutate(&mut buf, r);
+        }
+        return format!("noalloci {}", to_hex(&buf));
+    }
+    let (buf, m, _) = gen_message_bytes(r);
+    let mut ops: Vec<String> = vec!["hd".into()];
+    let nq = m.questions.len();
+    let mut q_read = 0;
+    let n_ops = r.range(2, 30);
+    let mut n_markers = 0u64;
+    let mut n_refs = 0u64;
+    for _ in 0..n_ops {
+        if q_read < nq && !r.chance(1, 20) {
+            ops.push(r.pick(&["q", "qr", "sq", "q"]).to_string());
+            q_read += 1;
+            continue;
+        }
+        match r.below(16) {
+            0..=7 => {
+                let g1 = if r.chance(1, 10) { "hh" } else { *r.pick(&["mk", "hr", "hi", "hr"]) };
+                ops.push(g1.into());
+                n_markers += 1;
+                if g1 == "hr" {
+                    n_refs += 1;
+                }
+                ops.push(r.pick(&["sk", "db", "dt:A", "dt:AAAA", "op", "sk"]).to_string());
+            }
+            8 | 9 => ops.push(format!("seek:{}", r.below(3))),
+            10 => ops.push(if r.chance(1, 2) { "cq".into() } else { format!("cs:{}", r.below(3)) }),
+            11 => ops.push(format!("dba:{}", r.below(n_markers + 1))),
+            12 => ops.push(format!("dta:{}:{}", r.below(n_markers + 1), r.pick(&["A", "AAAA"]))),
+            13 => ops.push(format!("nra:{}", r.below(n_markers + 1))),
+            _ => ops.push(format!("neq:{}:{}", r.below(n_refs + 1), r.below(n_refs + 1))),
+        }
+    }
+    format!("noalloc {} {}", to_hex(&buf), ops.join(" "))
+}
+
+// ---------------------------------------------------------------------------------------------
 // iterator API, record sets, NameRef::eq
 // ---------------------------------------------------------------------------------------------
 
